@@ -1016,7 +1016,7 @@ def program_c11(rnd):
         mod.append(Let(l, List([elem() for _ in range(n)])))
         cur = n
         for _ in range(rnd.randint(1, 5)):
-            op = rnd.choice(["push", "pop", "insert", "remove", "get", "set", "has", "index", "slice", "rev", "clear", "len", "push3", "sort"])
+            op = rnd.choice(["push", "pop", "insert", "remove", "get", "set", "opset", "has", "index", "slice", "rev", "clear", "len", "push3", "sort"])
             j = nk()
             L = Var(l)
             if op == "push": e = Invoke(L, "push", [elem()])
@@ -1026,6 +1026,7 @@ def program_c11(rnd):
             elif op == "remove": e = Invoke(L, "remove", [idx(cur)])
             elif op == "get": e = Index(L, idx(cur))
             elif op == "set": e = IndexSet(L, idx(cur), elem())
+            elif op == "opset": e = IndexOp(L, idx(cur), rnd.choice(["+=", "-=", "*="]), elem())
             elif op == "has": e = Invoke(L, "has", [elem()])
             elif op == "index": e = Invoke(L, "index", [elem()])
             elif op == "slice": e = Invoke(L, "slice", [idx(cur) for _ in range(rnd.randint(0, 2))])
@@ -1290,3 +1291,17 @@ def program_c10(rnd):
     if rnd.random() < 0.5:
         return Module(pre + body)
     return Module(pre + [Fn("main", [], Block(body)), ExprSt(Call(Var("main"), []))])
+
+
+# ======================================================================================================
+# C01: compound assignment through an index whose index expression has an effect (known finding KF-C01-index-twice)
+def index_twice_programs():
+    from lang import IndexOp
+    out = []
+    counter = [Let("n", Num(0)), Fn("i", [], Block([ExprSt(Assign("n", Bin("+", Var("n"), Num(1)))), Return(Num(0))]))]
+    out.append(Module([Let("l", List([Num(1), Num(2)]))] + counter + [ExprSt(IndexOp(Var("l"), Call(Var("i"), []), "+=", Num(5))), Print(Var("n"), Var("l"))]))
+    out.append(Module([Let("m", MapLit([(Str("a"), Num(1))])), Fn("k", [], Block([Print(Str("k")), Return(Str("a"))])),
+                       ExprSt(IndexOp(Var("m"), Call(Var("k"), []), "*=", Num(3))), Print(Index(Var("m"), Str("a")))]))
+    moving = [Let("n", Num(-1)), Fn("i", [], Block([ExprSt(Assign("n", Bin("+", Var("n"), Num(1)))), Return(Var("n"))]))]
+    out.append(Module([Let("l", List([Num(1), Num(2)]))] + moving + [ExprSt(IndexOp(Var("l"), Call(Var("i"), []), "+=", Num(5))), Print(Var("l"))]))
+    return out
